@@ -24,7 +24,7 @@ RULE = ("(a) in-process rapidcheck + exhaustive enumeration against /repo's tree
 ASSUMPTIONS = c01.ASSUMPTIONS + ["the rapidcheck harness links tree.c/util.c compiled from the current /repo tree with ASan+UBSan"]
 
 INT_TYPES = ["_Bool", "char", "signed char", "unsigned char", "short", "unsigned short", "int", "unsigned", "long", "unsigned long",
-             "long long", "unsigned long long", "enum en"]
+             "long long", "unsigned long long", "enum en", "enum el", "enum eul"]
 
 
 def prepare(ctx):
@@ -35,7 +35,9 @@ def prepare(ctx):
 def ctype(name, cs):
     m = {"_Bool": cm.BOOL, "char": cm.char_type(cs), "signed char": cm.SCHAR, "unsigned char": cm.UCHAR, "short": cm.SHORT,
          "unsigned short": cm.USHORT, "int": cm.INT, "unsigned": cm.UINT, "long": cm.LONG, "unsigned long": cm.ULONG,
-         "long long": cm.LLONG, "unsigned long long": cm.ULLONG, "enum en": cm.UINT}
+         "long long": cm.LLONG, "unsigned long long": cm.ULLONG, "enum en": cm.UINT,
+         # enumerations whose values do not fit int have a 64-bit underlying type (C23 6.7.2.2, GNU before that)
+         "enum el": cm.LONG, "enum eul": cm.ULONG}
     return m[name]
 
 
@@ -173,7 +175,7 @@ def switch_programs(draw, big=False):
         fn.append("\tr += 7; }")
     fn.append("\treturn r;")
     fn.append("}")
-    src = PROLOGUE + "enum en { EN0, EN1 = 4000000000u };\n" + "\n".join(fn) + "\nstatic %s probes[] = { %s };\n" % (
+    src = PROLOGUE + "enum en { EN0, EN1 = 4000000000u };\nenum el { EL0 = -1, EL1 = 0x100000000 };\nenum eul { EUL1 = 0xffffffffffffffff };\n" + "\n".join(fn) + "\nstatic %s probes[] = { %s };\n" % (
         "long long" if T.signed else "unsigned long long", ", ".join(cm.literal(p, cm.LLONG if T.signed else cm.ULLONG) for p in probes)) + \
         "int main(void) {\n\tfor (unsigned i = 0; i < %d; i++) chk_i64(f((%s)probes[i]));\n\treturn 0;\n}\n" % (len(probes), tname)
 
